@@ -29,7 +29,7 @@ func init() {
 			return 160
 		},
 		Batches: func(t string) int { return 16 },
-		Rule:    "each case = one real PeerToPeer with 6 connected peers (roles none/seed/root/seed+root all present, connection types drawn from all 7 incl. one undetermined) and a recording application callback; phase A (sequential, synchronous observation): every (dest in {any,seed,root,peer,other} x ttl in {0,1,2,255} x src in {delivering peer, another peer, unknown id, own id} x delivering peer) combination as a fresh packet parsed by the real PacketReader, followed by 0-3 relayed copies through other peers (different extension bytes, same hash); phase B (concurrent): 200 distinct packets, each relayed by 1-6 peers, written in PRNG order into the 6 peers' connections and consumed by the peers' real receive routines (one goroutine per peer, race detector on); phase C (1 case in 4): 600-11000 distinct flooded packets first (bucket rotation and ring wrap of the 20x500 pool), then duplicates of packets at most 1900 distinct packets old. Non-trivial = distinct scenario (phase, dest, ttl, ordered list of (peer role, connection type, src kind) of the copies) that has >=2 copies through different peers or an unauthorized copy.",
+		Rule:    "each case = one real PeerToPeer with 6 connected peers (roles none/seed/root/seed+root all present, connection types drawn from all 7 incl. one undetermined) and a recording application callback; phase A (sequential, synchronous observation): every (dest in {any,seed,root,peer,other} x ttl in {0,1,2,255} x src in {delivering peer, another peer, unknown id, own id} x delivering peer) combination as a fresh packet parsed by the real PacketReader, followed by 0-3 relayed copies through other peers (different extension bytes, same hash); phase B (concurrent): 200 distinct packets, each relayed by 1-6 peers, written in PRNG order into the 6 peers' connections and consumed by the peers' real receive routines (one goroutine per peer, race detector on); phase C (1 case in 4): 600-11000 distinct flooded packets first (bucket rotation and ring wrap of the 20x500 pool), then duplicates of packets at most 1900 distinct packets old. phase E (every case): a real transport + NetworkManager on loopback TCP (node role validator or seed; validator list installed with SetRole before/between/after connections, seed list empty in 3 of 4 cases) and 7 scripted peers that authenticate, join, claim the validator bit in QueryReq (members and non-members of the installed list; one removed by a later SetRole), request a connection type and originate a broadcast: delivery to a registered Reactor is judged against the INSTALLED validator set. Non-trivial = distinct scenario (phase, dest, ttl, ordered list of (peer role, connection type, src kind) of the copies) that has >=2 copies through different peers or an unauthorized copy.",
 		MinNonTrivial: func(t string) int {
 			if t == ev.Thorough {
 				return 500000
@@ -38,11 +38,15 @@ func init() {
 		},
 		Required: []string{"copies_sequential", "copies_concurrent", "flooded_delivered_once", "flooded_duplicates_suppressed", "onehop_foreign_src_dropped",
 			"broadcast_from_non_validator_dropped", "first_authorized_delivered", "authorized_after_unauthorized_delivered", "window_duplicates_suppressed",
-			"window_bucket_rotations", "concurrent_same_hash_races"},
+			"window_bucket_rotations", "concurrent_same_hash_races",
+			"query_sessions", "query_member_broadcast_delivered", "query_nonmember_broadcast_dropped", "query_nonmember_claimed-after-install",
+			"query_nonmember_claimed-before-install", "query_nonmember_removed-by-update", "query_nonmember_claimed-after-update"},
 		Assumptions: []string{
 			"duplicates arrive at most 1900 distinct flooded packets after the first copy (the implementation's 20x500 ring keeps at least the last 9500)",
 			"64-bit FNV packet hashes of the distinct generated packets do not collide",
 			"copies with an undetermined connection type, the node's own id as source, or a protocol the peer did not register are outside the statement: any outcome is allowed for them (they still count for at-most-once)",
+			"phase E needs loopback TCP (listen on 127.0.0.1:0); without it the run is inconclusive (required counters query_*)",
+			"when a validator list is installed, 'holding the validator role' means membership in that list (a claimed role bit is not enough); with no list installed claims are trusted by design and not judged",
 			"'delivered' = the callback registered for the packet's protocol was invoked; the sequential phase attributes an invocation to the copy whose onPacket call was running",
 		},
 		TimeoutSec: func(t string) int {
@@ -327,6 +331,9 @@ func run(c *ev.Ctx) {
 		phaseB(w)
 		if !c.Stopped() {
 			phaseD(w)
+		}
+		if !c.Stopped() {
+			phaseE(w)
 		}
 	})
 }
